@@ -474,3 +474,115 @@ std_harness!(6, fn c10_rule_a() {
     core::mem::forget(req);
     core::mem::forget(rm);
 });
+
+// ---------------------------------------------------------------------------------------------- C01.host
+pub fn hpack(b: &[u8]) -> Hash {
+    let mut h: u64 = b.len() as u64;
+    let mut i = 0;
+    while i < b.len() && i < 7 {
+        h = (h << 8) | (b[i] as u64);
+        i += 1;
+    }
+    h | (1u64 << 63)
+}
+static mut HMODE_B: bool = false;
+static mut HA: [u64; 3] = [0; 3];
+static mut HNA: usize = 0;
+static mut HB: [u64; 6] = [0; 6];
+static mut HNB: usize = 0;
+pub fn stub_fast_hash_hab(input: &str) -> Hash {
+    let h = hpack(input.as_bytes());
+    unsafe {
+        if HMODE_B {
+            if HNB < 6 {
+                HB[HNB] = h;
+            }
+            HNB += 1;
+        } else {
+            if HNA < 3 {
+                HA[HNA] = h;
+            }
+            HNA += 1;
+        }
+    }
+    h
+}
+/// hostname tokens are sound bucket keys: if the filter host anchors in the request host (no wildcard), every
+/// token of the filter host is a token of the request URL "s://" ++ host ++ tail.
+#[kani::proof]
+#[kani::unwind(12)]
+#[kani::stub(crate::utils::fast_hash, stub_fast_hash_hab)]
+fn c01_host_tokens() {
+    let mut dr = crate::verif_shim::Draw::new();
+    let fb: [u8; 3] = dr.bytes::<3>();
+    let fl: usize = dr.usize();
+    let hb: [u8; 5] = dr.bytes::<5>();
+    let hl: usize = dr.usize();
+    let t: u8 = dr.u8();
+    let has_t: bool = dr.bool();
+    kani::assume(fl >= 1 && fl <= 3);
+    let mut i = 0;
+    while i < 3 {
+        kani::assume(hostc(fb[i]));
+        i += 1;
+    }
+    assume_valid_host(&hb, hl);
+    kani::assume(t == b'/' || t == b':' || t == b'?');
+    let fh = unsafe { core::str::from_utf8_unchecked(&fb[..fl]) };
+    let h = unsafe { core::str::from_utf8_unchecked(&hb[..hl]) };
+    let mut ub = [0u8; 10];
+    ub[0] = b's';
+    ub[1] = b':';
+    ub[2] = b'/';
+    ub[3] = b'/';
+    let mut n = 4;
+    let mut i = 0;
+    while i < 5 {
+        if i < hl {
+            ub[n] = hb[i];
+            n += 1;
+        }
+        i += 1;
+    }
+    if has_t {
+        ub[n] = t;
+        n += 1;
+    }
+    let url = unsafe { core::str::from_utf8_unchecked(&ub[..n]) };
+    let anchored = is_anchored_by_hostname(fh, h, false);
+    let mut va: Vec<Hash> = Vec::with_capacity(8);
+    let mut vb: Vec<Hash> = Vec::with_capacity(8);
+    unsafe {
+        HMODE_B = false;
+    }
+    // what NetworkFilter::get_tokens does for the hostname of a rule without IS_HOSTNAME_REGEX
+    utils::tokenize_pooled(fh, &mut va);
+    unsafe {
+        HMODE_B = true;
+    }
+    utils::tokenize_pooled(url, &mut vb);
+    if anchored {
+        unsafe {
+            let mut k = 0;
+            while k < 3 {
+                if k < HNA {
+                    let tk = HA[k];
+                    let mut found = false;
+                    let mut j = 0;
+                    while j < 6 {
+                        if j < HNB && HB[j] == tk {
+                            found = true;
+                        }
+                        j += 1;
+                    }
+                    assert!(found, "P:host_tokens.tokens_of_an_anchoring_filter_host_are_url_tokens");
+                }
+                k += 1;
+            }
+            kani::cover!(HNA >= 1, "W:host_tokens.filter_host_has_token");
+        }
+    }
+    kani::cover!(!anchored, "W:host_tokens.not_anchored");
+    core::mem::forget(va);
+    core::mem::forget(vb);
+}
